@@ -199,9 +199,9 @@ pub fn generate(seed: u64, n: usize, _thorough: bool, _corpus: Option<&str>) -> 
     let mut rg = Rng::new(seed ^ 0x6a9d_0055_u64).fork();
     for k in 0..(if n >= 2000 { n / 16 } else { GAP_BLOCK }) { out.push(gap_doors(&mut rg, k)); }
     // the TRUTH TABLES of every connective through the method / operator forms, twice (the receiver form - bare handle or
-    // expression - is drawn per probe): 12 connective shapes x 6 value pairs x 2
+    // expression - is drawn per probe): 12 connective shapes x 8 value pairs x 3
     let mut rt = Rng::new(seed ^ 0x7ab1e_u64).fork();
-    for _rep in 0..2 { for kind in 0..12 { for pq in [[0.0, 1.0], [1.0, 0.0], [0.0, 0.0], [1.0, 1.0], [0.0, 2.0], [-1.0, 0.0]] {
+    for _rep in 0..3 { for kind in 0..12 { for pq in [[0.0, 1.0], [1.0, 0.0], [0.0, 0.0], [1.0, 1.0], [0.0, 2.0], [-1.0, 0.0], [0.0, -1.0], [3.0, 0.0]] {
         if let Some(c) = eval_probe_with(&mut rt, Some((kind, pq))) { out.push(c); } } } }
     out
 }
